@@ -10,7 +10,7 @@ import extract
 from lib import hx
 
 EXTRACT = ['ids', 'layouts']
-EXTRA_PROPS = ['C05Hand']
+EXTRA_PROPS = ['C05Hand', 'C05Stream']
 RULE = ("every supported protocol version (quick: rotating third + all layout-boundary versions) x every "
         "registered definition-driven packet class x 2..4 value sets (boundary + seeded random wire-"
         "representable values per field type, incl. nested arrays, positions, records, fixed point, angles); "
@@ -61,6 +61,9 @@ def gen_value(rng, tok, ctxobj, boundary):
         val = struct.unpack(fmt, pat.to_bytes(w, 'big'))[0]
         return val, 'i%d' % pat, ('pat', pat)
     if k == 'string':
+        if boundary and rng.random() < 0.01:
+            s = '{"text":"' + 'long chat ' * rng.choice([13200, 26000]) + '"}'     # well above 2^17 bytes
+            return s, 's' + s.encode('utf-8').hex(), s
         s = rng.choice(['', 'a', 'héllo', '世界', 'x' * 130, '{"text":"hi"}']) if boundary else \
             ''.join(rng.choice('abc é世\U0001f600"{}:') for _ in range(rng.randrange(0, 20)))
         return s, 's' + s.encode('utf-8').hex(), s
@@ -348,6 +351,44 @@ def run(ctx):
         if bad:
             ctx.violation('user-defined packet [%s]: %s' % (';'.join(toks), bad),
                           {'program': toks, 'values': [m for _, m, _ in vals]}, key={'program': toks, 'values': [m for _, m, _ in vals]})
+    # ---- a user-defined packet with a CLASS-LEVEL definition (one PrefixedArray object shared by all
+    # instances) used under several protocol versions in one process: context-dependent element types
+    # must follow the version of the packet being read/written, not the first one seen
+    class Waypoints(Packet):
+        id = 0x78
+        definition = [{'points': B.PrefixedArray(B.VarInt, B.Position)},
+                      {'nested': B.PrefixedArray(B.VarInt, B.PrefixedArray(B.Integer, B.Position))},
+                      {'note': B.String}]
+    big = '{"text":"' + 'x' * 140000 + '"}'
+    for v in (340, 404, 498, 754, 757, 340, 47, 757):
+        cxv = ConnectionContext(protocol_version=v)
+        pts = [gen_value(rng, 'pos/%d' % cxv.protocol_later_eq(443), cxv, True) for _ in range(3)]
+        p = Waypoints(cxv)
+        p.points = [x[0] for x in pts]
+        p.nested = [[x[0] for x in pts[:2]], []]
+        p.note = big if v == 757 else 'n'
+        buf = PacketBuffer()
+        p.write_fields(buf)
+        data = buf.get_writable()
+        q = Waypoints(cxv)
+        rb = PacketBuffer()
+        rb.send(data)
+        rb.reset_cursor()
+        ctx.case(('waypoints', v, tuple(x[1] for x in pts)))
+        try:
+            q.read(rb)
+            okk = [tuple(a) for a in q.points] == [x[2] for x in pts] and \
+                [[tuple(a) for a in l] for l in q.nested] == [[x[2] for x in pts[:2]], []] and q.note == p.note and not rb.read()
+            why = 'reads back %r' % ([tuple(a) for a in q.points],)
+        except Exception as e:
+            okk, why = False, 'read raised %r' % (e,)
+        if not okk:
+            ctx.violation('user-defined packet with a class-level definition at protocol %d (after other versions): %s, written %r'
+                          % (v, why[:200], [x[2] for x in pts]), {'version': v}, key={'kind': 'class-level-definition', 'version': v})
+        toks = 'arr/varint/pos/%d;arr/varint/arr/i32/pos/%d;string' % (cxv.protocol_later_eq(443), cxv.protocol_later_eq(443))
+        if v != 757:
+            enc_lines.append('fields.enc %s [%s];[[%s],[]];s%s' % (toks, ','.join(x[1] for x in pts), ','.join(x[1] for x in pts[:2]), p.note.encode().hex()))
+            enc_impl.append('ok ' + hx(data))
     for lines, impl, what in ((enc_lines, enc_impl, 'write_fields'), (dec_lines, dec_impl, 'read')):
         for line, mo, g in zip(lines, ctx.driver.ask(lines), impl):
             if mo != g:
